@@ -18,7 +18,7 @@ LEVEL = "exploration"
 RULE = (
     "Hypothesis draws a run over all families/boxes/starts x maxiter 0..40 x maxfun 1..200 x maxls x ftol x gtol (float or callable) x ftarget (None, float or callable, placed above/at/below reachable values) "
     "x stopping callback x gradient scaler x {callable, None, 2-point, 3-point}, followed by a history of 0..3 restarts from the previous result with maxiter below/equal/above the checkpoint's nit, "
-    "maxfun below/above its nfev and a new maxcor; dedicated generators: (i) evaluation budgets that bind inside a line search (fresh runs with maxfun 3..16, restarts with maxfun = n0+1..4, hard line-search families), (ii) a target placed exactly on, one ulp below or one ulp above a value the run attains (f(x0) or the value at iterate k of a reference run). non-trivial = at least two stop criteria were within reach in the same run (e.g. small maxfun and a reachable target, a stopping callback and a small maxiter) "
+    "maxfun below/above its nfev and a new maxcor; dedicated generators: (i) evaluation budgets that bind inside a line search (fresh runs with maxfun 3..16, restarts with maxfun = n0+1..4, hard line-search families), (ii) a target placed exactly on, one ulp below or one ulp above a value the run attains (f(x0) or the value at iterate k of a reference run), (iii) the same for gtol: one ulp below / at / above a projected-gradient norm the run attains, and gtol = 0 (vertex solutions have a projected gradient of exactly 0), (iv) runs whose objective is redefined on the fly by an update function (C13's objective switches), half of them aimed at the update invocation that follows the iterate at which the *old* objective met the tolerance: the report must be true of the returned (x, jac). non-trivial = at least two stop criteria were within reach in the same run (e.g. small maxfun and a reachable target, a stopping callback and a small maxiter) "
     "or the history contains a restart; distinct = distinct history spec; a fifth of the problems are also translated far from the origin (x -> x+T, |T| = 1e2..1e6: bounds and iterates of large magnitude compared with the box)"
 )
 ASSUMPTIONS = [
@@ -249,6 +249,49 @@ def gtol_boundary_strategy(draw):
     return {"kind": "gtol", "run": r, "k": draw(st.integers(0, 8)), "where": draw(st.sampled_from(["below", "at", "at", "above", "zero"])), "callable": draw(st.booleans())}
 
 
+# ---- dedicated generator: runs whose objective is redefined on the fly (update_fun_def): the report must be true of the
+# returned (x, jac), i.e. of the gradient *after* the redefinition -- also when the redefinition happens at the very
+# iterate at which the old objective met the tolerance
+def check_update_fun(spec, stats=None):
+    from vf.props.c13 import make_switch_update, numerical_breakdown_gate
+
+    rspec = spec["run"]
+    prob = build(rspec["problem"])
+    cfg = dict(rspec["cfg"])
+    sw = dict(spec["switch"])
+    plain = run_min(prob, cfg)
+    if plain.exc is not None:
+        raise plain.exc
+    aimed = False
+    if spec["aim"] and plain.res["message"] == MSG_PGTOL and plain.res["nit"] >= 1:
+        sw["at"] = plain.res["nit"]  # the update invocation that follows the iterate at which the old objective converged
+        aimed = True
+    info = {}
+    upd, objB = make_switch_update(prob, sw, info)
+    tr = run_min(prob, cfg, callback="passive", update_fun_def=upd)
+    if tr.exc is not None:
+        numerical_breakdown_gate(tr, stats)
+        raise tr.exc
+    msg = judge(tr, prob, cfg, n0=1, nit0=0, gtol=cfg["gtol"], ftarget_val=None, scale=1.0, cb_schedule_hit=None, mode="callable", tag="update-fun")
+    if stats is not None:
+        reached = len(tr.upd_calls) > sw["at"]
+        stats.case(spec, reached, ["kind=update-fun", f"switch_reached={reached}", f"aimed_at_convergence_of_old_objective={aimed}", f"msg={msg[:30]}"],
+                   sample={"family": rspec["problem"]["obj"]["family"], "switch_at_invocation": sw["at"], "aimed": aimed, "message": msg, "nit": tr.res["nit"], "gtol": cfg["gtol"]})
+
+
+@st.composite
+def update_fun_strategy(draw):
+    from vf.props.c13 import switch_strategy
+
+    sp = draw(switch_strategy())
+    sp["run"]["cfg"]["gtol"] = draw(st.sampled_from([1e-1, 1e-2, 1e-3, 1e-5, 1e-8]))
+    sp["run"]["cfg"]["ftol"] = draw(st.sampled_from([0.0, 0.0, 1e-12, 1e-5]))
+    sp["run"]["cfg"]["maxiter"] = draw(st.integers(2, 40))
+    sp["kind"] = "update-fun"
+    sp["aim"] = draw(st.booleans())
+    return sp
+
+
 @st.composite
 def target_boundary_strategy(draw):
     r = draw(run_spec(families=ALL_FAMILIES, n_max=6, jac_modes=("callable",), maxiter=(0, 12), maxfun=(50, 200), ftols=(0.0,), gtols=(1e-10,)))
@@ -259,11 +302,14 @@ def shard(ctx):
     ctx.hyp("histories", strategy(), check, ctx.pick(6000, 150000))
     ctx.hyp("target-boundary", target_boundary_strategy(), check_target_boundary, ctx.pick(2500, 40000))
     ctx.hyp("gtol-boundary", gtol_boundary_strategy(), check_gtol_boundary, ctx.pick(2500, 40000))
+    ctx.hyp("update-fun", update_fun_strategy(), check_update_fun, ctx.pick(2500, 40000))
     ctx.hyp("restart-budget", restart_budget_strategy(), check_restart_budget, ctx.pick(4000, 60000))
 
 
 def replay(spec):
-    if spec.get("kind") == "gtol":
+    if spec.get("kind") == "update-fun":
+        check_update_fun(spec, None)
+    elif spec.get("kind") == "gtol":
         check_gtol_boundary(spec, None)
     elif "where" in spec:
         check_target_boundary(spec, None)
